@@ -58,5 +58,6 @@ RowClauses(e, nExpected) ==
   \cup (IF ~e.xeqfresh THEN {"C13:recorded-equilibrium-composition-fresh"} ELSE {})
   \cup (IF \E i \in 1..Len(e.mb) : e.mb[i].cmp # "eq" /\ ~e.mb[i].clamped THEN {"C01:mass-balance"} ELSE {})
   \cup (IF "end" \in DOMAIN e /\ e.end.tend # "eq" /\ ~("stopped" \in DOMAIN e.end /\ e.end.stopped) THEN {"C03:ends-at-requested-time"} ELSE {})
+  \cup (IF "stalled" \in DOMAIN e /\ e.stalled THEN {"C03:reaches-the-requested-end-time(within a step budget far above what the run needs)"} ELSE {})
   \cup UNION {PhaseClauses(e.ph[p]) : p \in 1..Len(e.ph)}
 =============================================================================
